@@ -1062,6 +1062,43 @@ pub fn expr_contexts() -> Vec<Ctx> {
     // statements' own expression operands are covered by the statement alternatives (Σ_C), but the
     // canonical statement context is needed for Σ_A as well:
     v.push(ctx("stmt.expr", E(14), |e| in_func(expr_stmt(e))));
+    // idioms of the detectors with ONE operand left open (used twice where the idiom repeats it): every expression
+    // alternative appears as the index of an array update, the argument of address(...), the condition of a require,
+    // the operand next to a power of two, the base of `.length` / `.balance` / `.transfer`, the argument of keccak256
+    // and selfdestruct, the other side of `== true`, the operand of an increment
+    fn asg(k: &'static str, op: &'static str, l: Frag, r: Frag) -> Frag {
+        bin(k, op, 14, 13, 14, l, r)
+    }
+    v.push(ctx("idiom.array_update.index", E(14), move |e| in_func(expr_stmt(asg("Assign", "=", subscript(var("arr"), e.clone()), bin("Add", "+", 5, 5, 4, subscript(var("arr"), e), var("q")))))));
+    v.push(ctx("idiom.array_update.compound", E(14), move |e| in_func(expr_stmt(asg("AssignAdd", "+=", subscript(var("arr"), e), var("q"))))));
+    v.push(ctx("idiom.mapping_update.nested", E(14), move |e| {
+        in_func(expr_stmt(asg("Assign", "=", subscript(subscript(var("m"), e.clone()), var("k")), bin("Subtract", "-", 5, 5, 4, subscript(subscript(var("m"), e), var("k")), num("1")))))
+    }));
+    v.push(ctx("idiom.array_update.base", E(14), move |e| in_func(expr_stmt(asg("Assign", "=", subscript(e.clone(), num("0")), bin("Add", "+", 5, 5, 4, subscript(e, num("0")), var("q")))))));
+    v.push(ctx("idiom.require.cond", E(14), |e| in_func(expr_stmt(call(var("require"), vec![e, strlit("m")])))));
+    v.push(ctx("idiom.require.and", E(14), |e| in_func(expr_stmt(call(var("require"), vec![bin("And", "&&", 12, 12, 11, e, var("p")), strlit("this revert string is longer than thirty-two bytes")])))));
+    v.push(ctx("idiom.address.eq", E(14), |e| in_func(expr_stmt(bin("Equal", "==", 11, 11, 10, call(ty("address"), vec![e]), var("u"))))));
+    v.push(ctx("idiom.address.ne", E(14), |e| in_func(expr_stmt(bin("NotEqual", "!=", 11, 11, 10, e, call(ty("address"), vec![num("0")]))))));
+    v.push(ctx("idiom.mul.pow2", E(14), |e| in_func(expr_stmt(asg("Assign", "=", var("q"), bin("Multiply", "*", 4, 4, 3, e, num("8")))))));
+    v.push(ctx("idiom.div.pow2", E(14), |e| in_func(expr_stmt(asg("Assign", "=", var("q"), bin("Divide", "/", 4, 4, 3, e, num("4")))))));
+    v.push(ctx("idiom.div_then_mul", E(14), |e| in_func(expr_stmt(asg("Assign", "=", var("q"), bin("Multiply", "*", 4, 4, 3, bin("Divide", "/", 4, 4, 3, e.clone(), var("r")), e))))));
+    v.push(ctx("idiom.length.base", E(14), |e| {
+        in_func(node(
+            "For",
+            vec![T("for"), T("("), C(node("VariableDefinition", vec![C(ty("uint256")), T("i"), T("="), C(num("0")), T(";")])), C(bin("Less", "<", 10, 10, 9, var("i"), member(e, "length"))), T(";"), C(simple_expr(nodep("PostIncrement", 0, vec![C(var("i")), T("++")]))), T(")"), C(block(vec![]))],
+        ))
+    }));
+    v.push(ctx("idiom.balance.base", E(14), |e| in_func(expr_stmt(asg("Assign", "=", var("q"), member(call(ty("address"), vec![e]), "balance"))))));
+    v.push(ctx("idiom.transfer.base", E(14), |e| in_func(expr_stmt(call(member(e, "transfer"), vec![var("u"), var("w")])))));
+    v.push(ctx("idiom.transfer.arg", E(14), |e| in_func(expr_stmt(call(member(var("t"), "transferFrom"), vec![var("u"), e.clone(), e])))));
+    v.push(ctx("idiom.keccak.arg", E(14), |e| in_func(expr_stmt(asg("Assign", "=", var("h"), call(var("keccak256"), vec![e]))))));
+    v.push(ctx("idiom.keccak.abi", E(14), |e| in_func(expr_stmt(asg("Assign", "=", var("h"), call(var("keccak256"), vec![call(member(var("abi"), "encodePacked"), vec![e, var("q")])]))))));
+    v.push(ctx("idiom.selfdestruct.arg", E(14), |e| in_func(expr_stmt(call(var("selfdestruct"), vec![e])))));
+    v.push(ctx("idiom.bool.eq", E(14), |e| in_func(expr_stmt(asg("Assign", "=", var("b"), bin("Equal", "==", 11, 11, 10, e, nodep("BoolLiteral", 0, vec![T("true")])))))));
+    v.push(ctx("idiom.bool.ne", E(14), |e| in_func(expr_stmt(asg("Assign", "=", var("b"), bin("NotEqual", "!=", 11, 11, 10, nodep("BoolLiteral", 0, vec![T("false")]), e))))));
+    v.push(ctx("idiom.compare.ge", E(14), |e| in_func(expr_stmt(asg("Assign", "=", var("b"), bin("MoreEqual", ">=", 10, 10, 9, e.clone(), e))))));
+    v.push(ctx("idiom.assign.self_add", E(14), |e| in_func(expr_stmt(asg("Assign", "=", var("k"), bin("Add", "+", 5, 5, 4, var("k"), e))))));
+    v.push(ctx("idiom.state.assign", E(14), |e| in_func(expr_stmt(asg("Assign", "=", var("s0"), e)))));
     v
 }
 
